@@ -79,13 +79,31 @@ func (t *verifST) Drain(string) {
 }
 func (t *verifST) Peer() *peer.Peer { return &peer.Peer{} }
 
+var verifC25Workers, verifC25Streams = false, 3
+
+// with a stream-worker goroutine (NumStreamWorkers(1)): 2 requests, MaxConcurrentStreams 1, preemption bound 1
+//
+//verif:entry verifH_C25_stop_workers both preempt=1
+func verifH_C25_stop_workers() {
+	verifC25Workers, verifC25Streams = true, 2
+	verifH_C25_stop()
+}
+
 func verifH_C25_stop() {
 	verifRunning, verifMaxRunning, verifFinished, verifStarted = 0, 0, 0, 0
-	quota := uint32(1 + verifChoice("MaxConcurrentStreams", 2))
+	quota := uint32(1)
+	if !verifC25Workers {
+		quota = uint32(1 + verifChoice("MaxConcurrentStreams", 2))
+	}
 	s := &Server{quit: grpcsync.NewEvent(), done: grpcsync.NewEvent(), conns: map[string]map[transport.ServerTransport]bool{}, channelz: &channelz.Server{}}
 	s.cv = sync.NewCond(&s.mu)
 	s.opts.maxConcurrentStreams = quota
-	st := &verifST{n: 3, stop: make(chan struct{})}
+	if verifC25Workers { // NumStreamWorkers(1): handlers are handed to an idle worker goroutine when there is one
+		s.opts.numServerWorkers = 1
+		s.initServerWorkers()
+		verifCover("with-stream-workers")
+	}
+	st := &verifST{n: verifC25Streams, stop: make(chan struct{})}
 	graceful := verifBool("graceful")
 	connRefused := false
 	go func() { // the connection's goroutine, as handleRawConn starts it
